@@ -1,6 +1,7 @@
 """hash_map component: builds model driver + harness, generates cases, runs legs C and O into the given Check.
 Used by checks/c14.py (functional kinds) and checks/c16.py (lifetime/allocation kinds)."""
 import os
+import random
 import vlib
 from comp.hashmap import gen
 
@@ -15,7 +16,10 @@ RULE = ("seeded op scripts (insert/operator[]=/get+find/remove/iterate/size) ove
         "cross rehash thresholds; non-trivial = distinct script with more than 10 insertions (>= 1 rehash beyond the first). "
         "POINTER-LEVEL model (coq/HashMap/HashMapPtr.v, proved to refine the chain-level model): the same scripts; compared with the "
         "real code after EVERY op: the result line, the raw object (_table block id, _capacity, _size, per bucket the chain of "
-        "(node block id, key, value) read through -fno-access-control) and, under C16, the allocator/lifetime event line")
+        "(node block id, key, value) read through -fno-access-control) and, under C16, the allocator/lifetime event line; plus RAW "
+        "scripts (real code vs. pointer-level model only): the same ops and the private rehash() called directly at any load, so "
+        "that it also runs where the new capacity is not a multiple of the old one and old buckets merge; raw non-trivial = "
+        "distinct raw script with >= 1 direct rehash() of >= 3 entries to a capacity that is not a multiple of the old")
 TRUSTED = ["extraction: ExtrOcamlBasic only; OCaml 4.13.1; comp/hashmap/driver.ml (hash functions re-implemented in OCaml)",
            "correspondence harness comp/hashmap/harness.cpp (g++ -fsanitize=address,undefined, -fno-access-control)",
            "oracle: std::unordered_map, lifetime/allocation registries in lib/vharness.hpp",
@@ -53,6 +57,32 @@ def run_ptr(c, drvp, cases, impl, impl_full, sizes):
         if d:
             c.mismatch(cid, lines, "pointer-level model: line %d: impl=%r model=%r" % d)
 
+def _is_raw(lines):
+    return "rh" in lines
+
+def raw_stats(c, lines, ri):
+    """counters for a raw script, taken from the REAL object's table dumps: direct rehash() calls by kind of capacity change;
+    returns the nontrivial key (a script with >= 1 rehash() of >= 3 entries whose new capacity is not a multiple of the old)"""
+    ops = [l for l in lines if not l.startswith("hash ")]
+    dumps = [l.split() for l in ri["lines"] if l.startswith("t ")]
+    hard = False
+    for k, op in enumerate(ops):
+        if op != "rh" or k >= len(dumps) or k == 0:
+            continue
+        old, new, size = int(dumps[k - 1][2]), int(dumps[k][2]), int(dumps[k][3])
+        if old == 0:
+            kind = "from_null"
+        elif new == old:
+            kind = "same_capacity"
+        elif new % old == 0:
+            kind = "multiple"
+        else:
+            kind = "shrink_nonmultiple" if new < old else "grow_nonmultiple"
+        c.count("hashmap_raw_rehash_" + kind)
+        if kind.endswith("nonmultiple") and size >= 3:
+            hard = True
+    return "|".join(lines) if hard else None
+
 def run(c):
     """legs C and O for hash_map; returns False if the harness could not be built."""
     okm, _ = vlib.coq_make(["HashMap/HashMapExtract.vo"])
@@ -66,8 +96,11 @@ def run(c):
     if not okh:
         c.broken.append("hashmap harness does not compile against /repo: " + hlog[-1500:])
         return False
+    raw = []
     if c.replay:
-        cases = vlib.read_replay(c.replay)
+        allc = vlib.read_replay(c.replay)
+        cases = [x for x in allc if not _is_raw(x[1])]
+        raw = [x for x in allc if _is_raw(x[1])]
     else:
         cases = gen.corpus()
         n = 600 if c.tier == "quick" else 6000
@@ -75,6 +108,15 @@ def run(c):
             cases.append(("g%d" % i, gen.gen_case(c.rng, c.rng.choice([12, 30, 60, 150, 400]))))
         if c.tier == "thorough":
             cases += gen.exhaustive_small(4)
+        # raw scripts for the pointer-level model (direct calls of the private rehash()): own generator stream, so that the
+        # cases above do not depend on them
+        rrng = random.Random(c.seed * 7919 + 14)
+        raw = gen.raw_corpus()
+        for i in range(250 if c.tier == "quick" else 2500):
+            raw.append(("w%d" % i, gen.gen_raw_case(rrng, rrng.choice([12, 30, 60, 150]))))
+        raw += gen.raw_exhaustive(3 if c.tier == "quick" else 4)
+    for _, ls in raw:
+        c.count("hashmap_raw_ops", len(ls))
     for _, ls in cases:
         c.count("hashmap_ops", len(ls)); c.count("hashmap_hash_kind_" + ls[0].split()[-1])
     # the model is parametric in sizeof(chain *) and sizeof(chain); measure them on the real code
@@ -103,4 +145,16 @@ def run(c):
     c.compare(cases, impl, model, crossed_rehash)
     if okp:
         run_ptr(c, drvp, cases, impl, impl_full, sizes)
+        if raw:
+            # raw scripts: real code vs. pointer-level model only (+ the oracles of the harness, which stay valid: rehash()
+            # changes neither the association nor what the map owns)
+            impl_raw = vlib.run_cases(har, raw)
+            pm_raw = vlib.run_cases(drvp, raw, args=sizes)
+            keep = _keep(c.pid)
+            for res in (impl_raw, pm_raw):
+                for r in res.values():
+                    r["lines"] = [l for l in r["lines"] if keep(l)]
+            for r in impl_raw.values():
+                c.count("hashmap_ptr_table_dumps_compared", sum(1 for l in r["lines"] if l.startswith("t ")))
+            c.compare(raw, impl_raw, pm_raw, lambda cid, lines, ri: raw_stats(c, lines, ri))
     return True
